@@ -680,39 +680,172 @@ Proof.
     split; [reflexivity | simp_w; apply Tidy_append; auto].
 Qed.
 
+(* unwinding cleanups: the locals are destroyed, the container is not touched, they never panic *)
+Definition cleans (c : M unit) (held : list N) : Prop :=
+  forall w, wp c (fun _ w' => self w' = self w /\ log w' = log w ++ ev_drops held) (fun _ => False) w.
+
+Lemma unwind_key_spec k : cleans (unwind_key E k) (idK E k).
+Proof.
+  intros w. unfold unwind_key. apply wp_bind. apply wp_emit. apply wp_bind. apply wp_cbd.
+  intros b s. apply wp_ret. simp_w. auto.
+Qed.
+
+Lemma unwind_pair_spec p : cleans (unwind_pair E p) (ids_pair p).
+Proof.
+  intros w. unfold unwind_pair. apply wp_bind. apply wp_emit. apply wp_bind. apply wp_cbd.
+  intros bk s. apply wp_bind. apply wp_cbd. intros bv s'. apply wp_ret. simp_w. auto.
+Qed.
+
+Lemma unwind_pairs_spec l : cleans (unwind_pairs E l) (flat_map ids_pair l).
+Proof.
+  induction l as [|p t IH]; intros w; cbn [unwind_pairs flat_map].
+  - apply wp_ret. split; [reflexivity|]. cbn. symmetry. apply app_nil_r.
+  - apply wp_bind. eapply wp_mono; [apply unwind_pair_spec | |]; cbn beta; [|auto].
+    intros _ w1 [Hs1 Hg1]. eapply wp_mono; [apply IH | |]; cbn beta; [|auto].
+    intros _ w2 [Hs2 Hg2]. split; [congruence|]. rewrite Hg2, Hg1. unfold ev_drops.
+    rewrite map_app, app_assoc. reflexivity.
+Qed.
+
+Lemma wp_cleans cleanup held (w : world) (Qp : world -> Prop) :
+  cleans cleanup held ->
+  (forall w', self w' = self w -> log w' = log w ++ ev_drops held -> Qp w') ->
+  wp cleanup (fun _ => Qp) Qp w.
+Proof.
+  intros Hc H. eapply wp_mono; [apply Hc | |]; cbn beta.
+  - intros _ w' [Hs Hg]. auto.
+  - intros w' [].
+Qed.
+
+(* the panic outcome "rejected": container untouched, exactly the held locals destroyed *)
+Definition rejected (w : world) (held : list N) (w' : world) : Prop :=
+  self w' = self w /\ log w' = log w ++ ev_drops held.
+
+Lemma rejected_cpostP (w w' : world) held rest ins :
+  WF (self w) -> Permutation ins (held ++ rest) -> rejected w held w' -> cpostP w ins w'.
+Proof.
+  intros Hw HP [Hs Hg]. apply (cpostP_exact _ _ _ rest); rewrite ?Hs, ?Hg, ?dropped_log_drops; auto. perm_ids.
+Qed.
+
+Lemma rejected_base (w w1 w' : world) held :
+  self w1 = self w -> log w1 = log w -> rejected w1 held w' -> rejected w held w'.
+Proof. intros Hs Hg [H1 H2]. split; congruence. Qed.
+
+(* the rule for on_unwind: the frame holds [held]; they pass through on normal
+   return and are destroyed (moved to [dropped]) on the panic path *)
+Lemma cpostN_extra (w w' : world) ins outs extra : cpostN w ins outs w' -> cpostN w (ins ++ extra) (outs ++ extra) w'.
+Proof.
+  intros (Hw & Hc & lost & HP & Ht). split; [exact Hw|]. split; [exact Hc|]. exists lost.
+  split; [|exact Ht]. unfold acct in *. perm_ids.
+Qed.
+
+Lemma conserves_on_unwind {A} held cleanup (c : M A) ins (outs : A -> list N) :
+  conserves c ins outs -> cleans cleanup held ->
+  conserves (on_unwind cleanup c) (ins ++ held) (fun a => outs a ++ held).
+Proof.
+  intros Hc Hcl w Hw. apply wp_on_unwind. eapply wp_mono; [apply Hc; exact Hw | |]; cbn beta.
+  - intros a w' H. apply cpostN_extra. exact H.
+  - intros w' (Hw' & Hc' & lost & HP). apply (wp_cleans _ held); [exact Hcl|].
+    intros w'' Hs Hg. apply (cpostP_exact _ _ _ lost); rewrite ?Hs, ?Hg, ?dropped_log_drops; auto.
+    unfold acct in HP. perm_ids.
+Qed.
+
+(* guarded scan, then continue with the index found; a panicking comparison rejects *)
+Lemma wp_uscan_then {B} cleanup held (test : kv -> M bool) (f : option nat -> M B)
+      (Qn : B -> world -> Prop) (Qp : world -> Prop) (w : world) :
+  (forall p, quiet (test p)) -> cleans cleanup held -> WF (self w) ->
+  (forall r (w1 : world), self w1 = self w -> log w1 = log w ->
+     match r with Some i => i < len (self w) | None => True end -> wp (f r) Qn Qp w1) ->
+  (forall w1, rejected w held w1 -> Qp w1) ->
+  wp (bind (on_unwind cleanup (scan test)) f) Qn Qp w.
+Proof.
+  intros Ht Hcl Hw Hf Hp. apply wp_bind. apply wp_on_unwind.
+  eapply wp_mono; [apply scan_quiet; [exact Ht | exact Hw] | |]; cbn beta.
+  - intros r w' (Hs & Hg & Hr). apply Hf; assumption.
+  - intros w' [Hs Hg]. apply (wp_cleans _ held); [exact Hcl|].
+    intros w'' Hs' Hg'. apply Hp. split; congruence.
+Qed.
+
+(* insert_ii: every panic is a rejection (a panicking comparison, the debug
+   assertion, the bounds check): the container is untouched and the pair is
+   destroyed exactly once — nothing is lost *)
+Lemma insert_ii_strong k v u (w : world) :
+  WF (self w) ->
+  wp (insert_ii E debug k v u)
+     (fun r => cpostN w (ids_pair (k, v)) (match snd r with Some p => ids_pair p | None => [] end))
+     (rejected w (ids_pair (k, v))) w.
+Proof.
+  intros Hw. unfold insert_ii.
+  apply (wp_uscan_then (unwind_pair E (k, v)) (ids_pair (k, v)));
+    [intros; apply quiet_test_k | apply unwind_pair_spec | exact Hw | | auto].
+  intros r w1 Hs Hg Hi.
+  assert (Hd : dropped (log w1) = dropped (log w)) by (rewrite Hg; reflexivity).
+  assert (Hw1 : WF (self w1)) by (rewrite Hs; exact Hw).
+  eapply wp_mono with (Qn := fun r => cpostN w1 (ids_pair (k, v)) (match snd r with Some p => ids_pair p | None => [] end))
+                      (Qp := rejected w1 (ids_pair (k, v))).
+  2: { intros b w2 H2. exact (cpostN_base _ _ _ _ _ Hs Hd H2). }
+  2: { intros w2 H2. exact (rejected_base _ _ _ _ Hs Hg H2). }
+  rewrite <- Hs in Hi. clear Hs Hg Hd Hw. destruct r as [i|].
+  - destruct (WF_live _ _ Hw1 Hi) as [p Hp]. destruct u.
+    + apply wp_bind. eapply wp_p_replace; [exact Hp|]. apply wp_ret. cbn [snd].
+      apply (cpostN_replace w1 i p); auto. perm_ids.
+    + apply wp_bind. eapply wp_p_replace; [exact Hp|]. apply wp_ret. cbn [snd].
+      apply (cpostN_replace w1 i p); auto. unfold ids_pair; cbn [fst snd]. perm_ids.
+  - apply wp_bind. apply wp_get_len. apply wp_bind. apply wp_get_cap.
+    assert (Hrej : wp (unwind_pair E (k, v)) (fun _ => rejected w1 (ids_pair (k, v))) (rejected w1 (ids_pair (k, v))) w1).
+    { apply (wp_cleans _ (ids_pair (k, v))); [apply unwind_pair_spec|]. intros w' Hs Hg. split; assumption. }
+    apply wp_bind. apply wp_on_unwind. apply wp_bind. apply wp_dbg_assert.
+    + intros _. apply wp_check_index.
+      * intros Hc. apply wp_bind. apply wp_p_write_checked; [intros _ | intros Hge; lia].
+        apply wp_bind. apply wp_set_len. apply wp_ret. cbn [snd].
+        apply cpostN_append; auto.
+      * intros _. exact Hrej.
+    + intros _ _. exact Hrej.
+Qed.
+
 Lemma conserves_insert_ii k v u :
   conserves (insert_ii E debug k v u) (ids_pair (k, v))
             (fun r => match snd r with Some p => ids_pair p | None => [] end).
 Proof.
-  unfold insert_ii. apply conserves_scan_then; [intros; apply quiet_test_k|].
-  intros [i|] w Hw Hi.
-  - destruct (WF_live _ _ Hw Hi) as [p Hp]. destruct u.
-    + apply wp_bind. eapply wp_p_replace; [exact Hp|]. apply wp_ret. cbn [snd].
-      apply (cpostN_replace w i p); auto. perm_ids.
-    + apply wp_bind. eapply wp_p_replace; [exact Hp|]. apply wp_ret. cbn [snd].
-      apply (cpostN_replace w i p); auto. unfold ids_pair; cbn [fst snd]. perm_ids.
-  - apply wp_bind. apply wp_get_len. apply wp_bind. apply wp_get_cap.
-    apply wp_bind. apply wp_dbg_assert.
-    + intros _. apply wp_bind. apply wp_p_write_checked.
-      * intros Hc. apply wp_bind. apply wp_set_len. apply wp_ret. cbn [snd].
-        apply cpostN_append; auto.
-      * intros _. apply cpostP_refl; auto.
-    + intros _ _. apply cpostP_refl; auto.
+  intros w Hw. eapply wp_mono; [apply insert_ii_strong; exact Hw | |]; cbn beta.
+  - intros r w' H. exact H.
+  - intros w' H. apply (rejected_cpostP w w' (ids_pair (k, v)) []); auto. perm_ids.
+Qed.
+
+Lemma insert_ii_for_full_strong k v u (w : world) :
+  WF (self w) ->
+  wp (insert_ii_for_full E k v u)
+     (fun r => cpostN w (ids_pair (k, v)) (match r with Some (_, p) => ids_pair p | None => [] end))
+     (rejected w (ids_pair (k, v))) w.
+Proof.
+  intros Hw. unfold insert_ii_for_full.
+  apply (wp_uscan_then (unwind_pair E (k, v)) (ids_pair (k, v)));
+    [intros; apply quiet_test_k | apply unwind_pair_spec | exact Hw | | auto].
+  intros r w1 Hs Hg Hi.
+  assert (Hd : dropped (log w1) = dropped (log w)) by (rewrite Hg; reflexivity).
+  assert (Hw1 : WF (self w1)) by (rewrite Hs; exact Hw).
+  eapply wp_mono with (Qn := fun r => cpostN w1 (ids_pair (k, v)) (match r with Some (_, p) => ids_pair p | None => [] end))
+                      (Qp := rejected w1 (ids_pair (k, v))).
+  2: { intros b w2 H2. exact (cpostN_base _ _ _ _ _ Hs Hd H2). }
+  2: { intros w2 H2. exact (rejected_base _ _ _ _ Hs Hg H2). }
+  rewrite <- Hs in Hi. clear Hs Hg Hd Hw. destruct r as [i|].
+  - destruct (WF_live _ _ Hw1 Hi) as [p Hp]. destruct u.
+    + apply wp_bind. eapply wp_p_replace; [exact Hp|]. apply wp_ret.
+      apply (cpostN_replace w1 i p); auto. perm_ids.
+    + apply wp_bind. eapply wp_p_replace; [exact Hp|]. apply wp_ret.
+      apply (cpostN_replace w1 i p); auto. unfold ids_pair; cbn [fst snd]. perm_ids.
+  - apply wp_bind. eapply wp_mono; [apply drop_pair_spec | |]; cbn beta.
+    + intros _ w2 [Hs Hg]. apply wp_ret.
+      apply cpostN_exact; rewrite ?Hs, ?Hg, ?dropped_log_drops; auto. perm_ids.
+    + intros w2 [Hs Hg]. split; assumption.
 Qed.
 
 Lemma conserves_insert_ii_for_full k v u :
   conserves (insert_ii_for_full E k v u) (ids_pair (k, v))
             (fun r => match r with Some (_, p) => ids_pair p | None => [] end).
 Proof.
-  unfold insert_ii_for_full. apply conserves_scan_then; [intros; apply quiet_test_k|].
-  intros [i|] w Hw Hi.
-  - destruct (WF_live _ _ Hw Hi) as [p Hp]. destruct u.
-    + apply wp_bind. eapply wp_p_replace; [exact Hp|]. apply wp_ret.
-      apply (cpostN_replace w i p); auto. perm_ids.
-    + apply wp_bind. eapply wp_p_replace; [exact Hp|]. apply wp_ret.
-      apply (cpostN_replace w i p); auto. unfold ids_pair; cbn [fst snd]. perm_ids.
-  - apply (conserves_bind0 (drop_pair E (k, v)) (fun _ => ret None) _ (fun _ => [])); [apply conserves_drop_pair | | exact Hw].
-    intros _. apply (conserves_ret None (fun r : option (nat * kv) => match r with Some (_, p) => ids_pair p | None => [] end)).
+  intros w Hw. eapply wp_mono; [apply insert_ii_for_full_strong; exact Hw | |]; cbn beta.
+  - intros r w' H. exact H.
+  - intros w' H. apply (rejected_cpostP w w' (ids_pair (k, v)) []); auto. perm_ids.
 Qed.
 
 Lemma conserves_keep_value e :
@@ -730,6 +863,27 @@ Lemma conserves_insert k v :
 Proof.
   unfold insert. eapply conserves_bind0; [apply conserves_insert_ii|].
   intros [t e]. cbn [snd]. apply conserves_keep_value.
+Qed.
+
+(* how insert can panic: either the pair was rejected (container untouched, pair
+   destroyed exactly once, nothing lost), or the key was present, the value was
+   replaced (state w1) and the Drop of the displaced key half panicked: then only
+   the displaced value is lost to the unwinding *)
+Lemma insert_panic_cases k v (w : world) :
+  WF (self w) ->
+  wp (insert E debug k v) (fun _ _ => True)
+     (fun w' => rejected w (ids_pair (k, v)) w' \/
+                exists (w1 : world) k' v', cpostN w (ids_pair (k, v)) (ids_pair (k', v')) w1 /\
+                                 self w' = self w1 /\ log w' = log w1 ++ ev_drops (idK E k')) w.
+Proof.
+  intros Hw. unfold insert. apply wp_bind.
+  eapply wp_mono; [apply insert_ii_strong; exact Hw | |]; cbn beta.
+  - intros [t [[k' v']|]] w1 H1; cbn [snd] in H1; cbn [keep_value].
+    + apply wp_bind. eapply wp_mono; [apply drop_key_spec | |]; cbn beta.
+      * intros _ w2 _. apply wp_ret. exact I.
+      * intros w2 [Hs Hg]. right. exists w1, k', v'. auto.
+    + apply wp_ret. exact I.
+  - intros w' H. left. exact H.
 Qed.
 
 Lemma conserves_insert_key_value k v :
@@ -1065,7 +1219,7 @@ Lemma conserves_insert_i k v u (w : world) :
      (fun w' => WF (self w') /\ cap (self w') = cap (self w) /\ exists lost, acct w w' (ids_pair (k, v)) [] lost)
      w.
 Proof.
-  intros Hw Hd. unfold insert_i. apply wp_bind. apply wp_get_len. apply wp_bind.
+  intros Hw Hd. unfold insert_i. apply wp_bind. apply wp_get_len. apply wp_bind. apply wp_on_unwind.
   eapply wp_mono; [apply (insert_i_loop_acct k (len (self w)) 0 w Hw); [lia | exact Hd] | |]; cbn beta.
   - intros [target existing] w'. cbn [fst snd]. destruct existing as [[old_k old_v]|].
     + intros (Hg & Ht & Hold & Hs).
@@ -1096,7 +1250,9 @@ Proof.
       destruct u.
       * apply wp_bind. apply wp_p_write; [simp_w; rewrite Hs; exact Hc|]. apply wp_ret. cbn [snd]. exact Hfin.
       * apply wp_bind. apply wp_p_write; [simp_w; rewrite Hs; exact Hc|]. apply wp_ret. cbn [snd]. exact Hfin.
-  - intros w' [Hs Hg]. apply cpostP_refl; [exact Hw | exact Hs | rewrite Hg; reflexivity].
+  - intros w' [Hs Hg]. apply (wp_cleans _ (ids_pair (k, v))); [apply unwind_pair_spec|].
+    intros w'' Hs' Hg'. apply (rejected_cpostP w w'' (ids_pair (k, v)) []); [exact Hw | perm_ids |].
+    split; congruence.
 Qed.
 
 Lemma conserves_insert_unchecked k v (w : world) :
@@ -1138,19 +1294,22 @@ Qed.
 Lemma conserves_extend_loop nx items :
   conserves (extend_loop E debug nx items) (flat_map ids_pair items) (fun _ => []).
 Proof.
-  induction items as [|[k v] rest IH]; cbn [extend_loop flat_map].
+  induction items as [|[k v] rest IH]; cbn [extend_loop].
   - apply (conserves_silent _ []). apply silent_call_next.
-  - apply (conserves_bind (ids_pair (k, v) ++ flat_map ids_pair rest) (call_next nx) _ [] (fun _ => []) (fun _ => [])).
-    + apply (conserves_silent _ []). apply silent_call_next.
+  - set (F := flat_map ids_pair).
+    apply (conserves_bind0 (on_unwind (unwind_pairs E ((k, v) :: rest)) (call_next nx)) _
+             ([] ++ F ((k, v) :: rest)) (fun _ => [] ++ F ((k, v) :: rest)) (fun _ => [])).
+    + apply (conserves_on_unwind (F ((k, v) :: rest)) _ (call_next nx) [] (fun _ => [])).
+      * apply (conserves_silent _ []). apply silent_call_next.
+      * apply unwind_pairs_spec.
     + intros _.
-      apply (conserves_bind (flat_map ids_pair rest) (insert E debug k v) _ (ids_pair (k, v))
-               (fun r : option V => match r with Some v0 => idV E v0 | None => [] end) (fun _ => [])).
-      * apply conserves_insert.
-      * intros old.
-        apply (conserves_bind (flat_map ids_pair rest) (drop_opt_val E old) _
-                 (match old with Some v0 => idV E v0 | None => [] end) (fun _ => []) (fun _ => [])).
-        -- apply conserves_drop_opt_val.
-        -- intros _. exact IH.
+      apply (conserves_bind0 (on_unwind (unwind_pairs E rest) (old <- insert E debug k v ;; drop_opt_val E old)) _
+               (ids_pair (k, v) ++ F rest) (fun _ => [] ++ F rest) (fun _ => [])).
+      * apply (conserves_on_unwind (F rest) _ (old <- insert E debug k v ;; drop_opt_val E old)
+                 (ids_pair (k, v)) (fun _ => [])).
+        -- eapply conserves_bind0; [apply conserves_insert|]. intros old. apply conserves_drop_opt_val.
+        -- apply unwind_pairs_spec.
+      * intros _. exact IH.
 Qed.
 
 Lemma wp_finally_drop_gen {A} (c : M A) (Qn : A -> world -> Prop) (Qp' Qp : world -> Prop) w :
